@@ -360,6 +360,12 @@ def sumSizes (l : List (Nat × Nat)) : Nat := (l.map (·.2)).sum
 def oobStart (m : DumpModel) (f : MemForm) : Nat :=
   32 + 12 * (streamSizes m f).length + sumSizes (streamSizes m f)
 
+/-- the exception's context bytes / the CSD version string, when present -/
+def excCtx (m : DumpModel) : List UInt8 := match m.exception with | none => [] | some x => x.ctx
+def csdString (e : Endian) (m : DumpModel) : List UInt8 :=
+  match m.sysInfo with | none => [] | some s => encString e s.csd
+def csdSize (m : DumpModel) : Nat := match m.sysInfo with | none => 0 | some s => stringSize s.csd
+
 /-- offsets of the out-of-band groups -/
 structure OobOffsets where
   threads : Nat
@@ -379,8 +385,8 @@ def oobOffsets (m : DumpModel) (f : MemForm) : OobOffsets :=
   let o3 := o2 + oobMemorySize m.memory
   let o4 := o3 + oobNamesSize (m.threadNames.map (·.2))
   let o5 := o4 + oobNamesSize (m.unloaded.map (·.name))
-  let o6 := o5 + (match m.exception with | none => 0 | some x => x.ctx.length)
-  let o7 := o6 + (match m.sysInfo with | none => 0 | some s => stringSize s.csd)
+  let o6 := o5 + (excCtx m).length
+  let o7 := o6 + csdSize m
   ⟨o0, o1, o2, o3, o4, o5, o6, o7⟩
 
 /-- the streams after the extras: (type, bytes) -/
@@ -403,8 +409,7 @@ def allStreams (m : DumpModel) (e : Endian) (f : MemForm) : List (Nat × List UI
 def oobAll (m : DumpModel) (e : Endian) : List UInt8 :=
   oobThreads m.threads ++ oobModules e m.modules ++ oobMemory m.memory ++
   oobNames e (m.threadNames.map (·.2)) ++ oobNames e (m.unloaded.map (·.name)) ++
-  (match m.exception with | none => [] | some x => x.ctx) ++
-  (match m.sysInfo with | none => [] | some s => encString e s.csd)
+  excCtx m ++ csdString e m
 
 /-- `time_date_stamp` written into every header (the value minidump-synth uses) -/
 def HEADER_TIME : Nat := 1262805309
